@@ -45,6 +45,7 @@ type c14Dst struct {
 	leveled bool
 	filter  bool
 	min     zerolog.Level
+	flw     *zerolog.FilteredLevelWriter
 	recs    []c14Rec
 }
 
@@ -60,6 +61,7 @@ type c14Ev struct {
 	handler  []error
 	ret      bool
 	inflight bool
+	mins     []zerolog.Level // the filter level of every destination when the event was logged
 }
 
 type c14Run struct {
@@ -186,8 +188,9 @@ func (c14World) Run(prop string, ch *zsim.Choices, trace bool) *RunResult {
 			case 2:
 				d.leveled = true
 				d.filter = true
-				d.min = []zerolog.Level{zerolog.DebugLevel, zerolog.InfoLevel, zerolog.WarnLevel, zerolog.ErrorLevel, zerolog.TraceLevel, zerolog.NoLevel, zerolog.Level(5)}[ch.Intn(7)]
-				ws = append(ws, &zerolog.FilteredLevelWriter{Writer: c14Leveled{d}, Level: d.min})
+				d.min = c14FilterLevels[ch.Intn(len(c14FilterLevels))]
+				d.flw = &zerolog.FilteredLevelWriter{Writer: c14Leveled{d}, Level: d.min}
+				ws = append(ws, d.flw)
 			}
 			if ch.Chance(1, 5) {
 				// a SyncWriter around one destination: bytes, level and result must pass through it
@@ -269,6 +272,19 @@ func (c14World) Run(prop string, ch *zsim.Choices, trace bool) *RunResult {
 			evs := per[t]
 			ts = append(ts, zsim.Spawn(fmt.Sprintf("log%d", t), func() {
 				for _, ev := range evs {
+					if nTasks == 1 && ch.Chance(1, 4) {
+						// Level is an exported field: the owner turns a filter up or down between events
+						for _, d := range r.dsts {
+							if d.flw != nil && ch.Chance(1, 2) {
+								d.min = c14FilterLevels[ch.Intn(len(c14FilterLevels))]
+								d.flw.Level = d.min
+								zsim.Probe("filter_level_changed")
+							}
+						}
+					}
+					for _, d := range r.dsts {
+						ev.mins = append(ev.mins, d.min)
+					}
 					r.cur[zsim.CurID()] = ev
 					ev.inflight = true
 					emit14(&lg, ev)
@@ -314,11 +330,11 @@ func (c14World) Run(prop string, ch *zsim.Choices, trace bool) *RunResult {
 			}
 			for _, ev := range events {
 				want := 1
-				if d.filter && ev.level < d.min && !r.plain {
+				if d.filter && ev.level < ev.mins[d.idx] && !r.plain {
 					want = 0
 				}
 				if got[ev] != want {
-					return viol("C14.fanout", "destination %d (filter=%v min=%v) received event %s (level %v) %d time(s), expected %d; outcomes of this event per destination: %v", d.idx, d.filter, d.min, ev.id, ev.level, got[ev], want, ev.outcome)
+					return viol("C14.fanout", "destination %d (filter=%v, level at that time %v) received event %s (level %v) %d time(s), expected %d; outcomes of this event per destination: %v", d.idx, d.filter, ev.mins[d.idx], ev.id, ev.level, got[ev], want, ev.outcome)
 				}
 			}
 		}
@@ -326,7 +342,7 @@ func (c14World) Run(prop string, ch *zsim.Choices, trace bool) *RunResult {
 		for _, ev := range events {
 			var want error
 			for i, d := range r.dsts {
-				if d.filter && ev.level < d.min && !r.plain {
+				if d.filter && ev.level < ev.mins[i] && !r.plain {
 					continue
 				}
 				if ev.outcome[i] == ocErr {
@@ -354,6 +370,8 @@ func (c14World) Run(prop string, ch *zsim.Choices, trace bool) *RunResult {
 		return nil
 	})
 }
+
+var c14FilterLevels = []zerolog.Level{zerolog.DebugLevel, zerolog.InfoLevel, zerolog.WarnLevel, zerolog.ErrorLevel, zerolog.TraceLevel, zerolog.NoLevel, zerolog.Level(5)}
 
 func emit14(lg *zerolog.Logger, ev *c14Ev) {
 	var e *zerolog.Event
